@@ -6,7 +6,7 @@ s = open(os.path.join(V, "DESIGN.md")).read()
 a = s.index("## 11. What was built"); b = s.index("## 12. Defects found")
 sec = s[a:b].split("\n")
 for k, l in enumerate(sec):
-    m = re.match(r"\| (C\d\d)([^|]*)\| ([^|]*)\| ([^|]*)\| (.*)\|$", l)
+    m = re.match(r"\| (C\d\d)([^|]*)\| ([^|]*)\| ([^|]*)\| ([^|]*)\|$", l)
     if not m:
         continue
     pid = m.group(1)
